@@ -397,6 +397,11 @@ def geometry(ctx, rr):
         ok = bool(reads) and all(ast.unparse(c.args[0]).replace(' ', '') in ('%s.block+self.storage.block_size' % c.func.value.id,
                                                                               'self.storage.block_size+%s.block' % c.func.value.id) for c in reads)
         check(ctx.where(u), '%s.nodes_iter advances by exactly one block (%s)' % (cls, steps), ok, u, stmt='nodes_iter step')
+        # ... and hands out every block it passes: block accounting (metrics, counters) is done by the consumers
+        ys = [y for y in P.own(u, ast.Yield)]
+        loops = [w for w in P.own(u, (ast.While, ast.For))]
+        uncond = len(loops) == 1 and bool(ys) and any(P.stmt_of(y) in loops[0].body for y in ys)
+        check(ctx.where(u), '%s.nodes_iter yields every block unconditionally' % cls, uncond, u, stmt='nodes_iter yield')
     rr.info.update({'trie_block': nsize, 'link_block': lsize, 'stem_payload': stem, 'node_values': nvals})
 
 
